@@ -223,8 +223,14 @@ void h_push(void) {
   wsd_work_stealing_deque_push_bottom(&D, G.p); verif_sync(-1);
   VASSERT(!G.bad && G.frees == 0, "H: C02 push frees nothing: every array ever published stays valid for stale thieves");
   VASSERT(BOT == G.b0 + 1 && inv_A() && (G.A != G.b0 || (G.knowA && G.vA == G.p)), "H: C02 push appends exactly its entry; every entry that was queued is still queued or was taken by a thief");
-  VASSERT(canon(ARR) != 0 && BOT - TOP <= (int64_t)canon(ARR)->size - 1, "H: C02 push keeps one slot of the current array free (bottom - top <= size - 1): the slot of the next entry never aliases a live one");
   VCANARY("push can return");
+}
+/* the capacity clause on its own (no observed entry: the query is much smaller that way) */
+void h_push_capacity(void) {
+  init_any(ROLE_PUSH); G.knowA = 0;
+  wsd_work_stealing_deque_push_bottom(&D, G.p); verif_sync(-1);
+  VASSERT(!G.bad && canon(ARR) != 0 && BOT - TOP <= canon(ARR)->size_minus_one, "H: C02 push keeps one slot of the current array free (bottom - top <= size - 1): the slot of the next entry never aliases a live one");
+  VCANARY("push (capacity) can return");
 }
 void h_pop(void) {
   init_any(ROLE_POP);
